@@ -21,6 +21,9 @@ CHECKS = {
  "C14": dict(cat="model_checking", ref="§3 C14",
    text="(a) Exhaustive grid: chosen message lengths (incl. > 65535 bytes) × every fragment size 0..65535 × both header formats; pieces are checked for size, parsed and reassembled by an independent implementation of the fragment format and fed to a real receiver which must process exactly the original, exactly once, at the last piece. (b) Complete state-graph search over an alphabet of next/restart/wrong-total/illegal-index/non-numeric/garbage/foreign-instance fragments and whole messages (error-message payloads and real data messages), the implementation compared at every step with the specification's reassembler.",
    tech="explicit-state model checking against the specification's reassembler + exhaustive bounded enumeration of (length, size) pairs"),
+ "C13": dict(cat="exploration", ref="§3 C13",
+   text="Exhaustive bounded input enumeration against a crash / hang / allocation / still-usable oracle, executed in worker subprocesses with an address-space limit: all short byte strings over a boundary alphabet into every binary parser, all short strings over the s-expression alphabet into the key-file readers, every truncation / deletion / length-word substitution of valid key serialisations and of a libotr key file, 15 conversation states × structure-aware mutations of every genuine message kind, marker and fragment-header variants and authenticated-but-malicious TLV payloads into Receive, and every index at which a read of the randomness source fails or is short.",
+   tech="exhaustive bounded enumeration of inputs and fault points (each case one execution of the real code under recover, allocation metering and a process-level watchdog)"),
 }
 NA_REASON = "check not built yet (work in progress; see DESIGN.md §3 for the planned bounded exploration)"
 def main():
